@@ -81,7 +81,7 @@ contract('kfac.assignment:KAISAAssignment.is_grad_worker', props=['C06', 'C13'],
          params={'layer': KStr},
          requires=[INV, HAS_LAYER],
          ensures=[('membership', 'result == (self.local_rank in self._grad_worker_groups[layer].ranks)'),
-                  ('column_of_inverse_worker[bounded]',
+                  ('column_of_inverse_worker',
                    f'all(result == (self.local_rank % {PS} == self._inv_assignments[layer][f] % {PS}) for f in self._inv_assignments[layer])')],
          hints=[('local_rank_witness', f'pt(self.local_rank % {PS}, {PS}, self.local_rank // {PS}) == self.local_rank')],
          modifies=[])
@@ -90,10 +90,12 @@ contract('kfac.assignment:KAISAAssignment.src_grad_worker', props=['C06', 'C13']
          requires=[INV, HAS_LAYER],
          ensures=[('is_grad_worker_of_layer', 'result in self._grad_worker_groups[layer].ranks'),
                   ('in_own_receiver_group', 'result in self._grad_receiver_groups[layer].ranks and self.local_rank in self._grad_receiver_groups[layer].ranks'),
-                  ('self_when_grad_worker[bounded]', 'implies(self.local_rank in self._grad_worker_groups[layer].ranks, result == self.local_rank)'),
-                  ('exactly_one_source[bounded]', 'all(implies(x in self._grad_worker_groups[layer].ranks and x in self._grad_receiver_groups[layer].ranks, x == result) for x in range(self.world_size))')],
+                  ('self_when_grad_worker', 'implies(self.local_rank in self._grad_worker_groups[layer].ranks, result == self.local_rank)'),
+                  ('exactly_one_source', 'all(implies(x in self._grad_worker_groups[layer].ranks and x in self._grad_receiver_groups[layer].ranks, x == result) for x in range(self.world_size))')],
          hints=[('local_rank_witness', f'pt(self.local_rank % {PS}, {PS}, self.local_rank // {PS}) == self.local_rank'),
-                ('witness', f'all(pt(self._inv_assignments[layer][f] % {PS}, {PS}, self.local_rank // {PS}) in (self._grad_worker_groups[layer].ranks & self._grad_receiver_groups[layer].ranks) for f in self._inv_assignments[layer])')],
+                ('own_row', 'self.local_rank in self._grad_receiver_groups[layer].ranks'),
+                ('witness', f'pt(self._inv_assignments[layer][key_at(self._inv_assignments[layer], 0)] % {PS}, {PS}, self.local_rank // {PS}) '
+                            'in (self._grad_worker_groups[layer].ranks & self._grad_receiver_groups[layer].ranks)')],
          modifies=[])
 contract('kfac.assignment:KAISAAssignment.get_layers', props=['C06'], result=KList(KStr),
          requires=[INV],
@@ -130,3 +132,16 @@ contract(
     ],
     modifies=['*'],
 )
+
+# arithmetic core of the residue-uniqueness fact used by the rangeset axioms (quantifier-free, default solver)
+lemma('kfac.assignment:KAISAAssignment.partition_grad_workers', 'residue_unique', props=['C06'],
+      vars={'a': KInt, 'a2': KInt, 'w1': KInt, 'w2': KInt, 's': KInt},
+      hyps=['0 <= a', 'a < s', '0 <= a2', 'a2 < s', 'w1 >= 0', 'w2 >= 0', 'a + w1 * s == a2 + w2 * s'],
+      goal='a == a2 and w1 == w2',
+      text='two members of strided ranges with the same stride and residues below the stride have equal residues')
+
+lemma('kfac.assignment:KAISAAssignment.partition_grad_workers', 'window_unique', props=['C06'],
+      vars={'a': KInt, 'w1': KInt, 'w2': KInt, 's': KInt, 'lo': KInt},
+      hyps=['s > 0', 'lo <= a + w1 * s', 'a + w1 * s < lo + s', 'lo <= a + w2 * s', 'a + w2 * s < lo + s'],
+      goal='w1 == w2',
+      text='a window no longer than the stride contains at most one member of a strided range')
